@@ -11,6 +11,8 @@ is supposed to perform are present in the source, in order.
 import HipVerif.Gen.StrGuards
 import HipVerif.Lemmas.CoreRun
 import HipVerif.Lemmas.CoreStr
+import HipVerif.Lemmas.CoreStrStep
+import HipVerif.Audit.Reexport
 import HipVerif.Props.C10
 
 namespace HipVerif.Props.C06
@@ -127,5 +129,34 @@ example : AllValid [some [0xC3, 0xA9], none] := by
   | 0, hg => simp [sget] at hg; subst hg; decide
   | 1, hg => simp [sget] at hg
   | (n + 2), hg => simp [sget] at hg
+
+/-! ### The `HipStr` layer itself (`strStep`: the checks `HipStr` adds on top of `HipByt`)
+Lemmas/CoreStrStep.lean.  Here the only hypothesis on arguments is their TYPE (`StrArgsOk`:
+`&str`/`char` arguments are well-formed); the cuts are checked by the layer's own guards. -/
+
+/-- the representation invariant survives every `HipStr` call -/
+reexport HipVerif.Str.strStep_wf as str_step_wf
+/-- **every `HipStr` call keeps every value well-formed UTF-8** — `push(char)`, `pop`, `truncate`,
+`try_slice`, `slice`, `from_utf8` rely on their own checks only -/
+reexport HipVerif.Str.strStep_valid as str_step_valid
+/-- a call the layer rejects (panic, slice error, UTF-8 error) leaves the state untouched -/
+reexport HipVerif.Str.strStep_reject_unchanged as str_reject_unchanged
+/-- through any history of `HipStr` calls from the initial state -/
+reexport HipVerif.Str.strRun_init_valid as str_run_valid
+reexport HipVerif.Str.strRun_valid as str_run_valid_from
+/-- agreement with `String`/`str`: what each accepted call does, and exactly which calls are accepted -/
+reexport HipVerif.Str.strStep_truncate_spec as str_truncate_spec
+reexport HipVerif.Str.strStep_popChar_spec as str_pop_spec
+/-- `pop`'s internal boundary re-check can never fire on a well-formed value -/
+reexport HipVerif.Str.strStep_popChar_no_panic as str_pop_no_panic
+reexport HipVerif.Str.strStep_pushChar_spec as str_push_char_spec
+reexport HipVerif.Str.strStep_pushStr_spec as str_push_str_spec
+reexport HipVerif.Str.strStep_trySlice_spec as str_try_slice_spec
+/-- `try_slice` accepts exactly the in-bounds ranges whose two ends are char boundaries -/
+reexport HipVerif.Str.strStep_trySlice_accepted_iff as str_try_slice_accepted_iff
+reexport HipVerif.Str.strStep_slice_spec as str_slice_spec
+reexport HipVerif.Str.strStep_fromUtf8_spec as str_from_utf8_spec
+/-- `from_utf8` accepts exactly the well-formed byte strings -/
+reexport HipVerif.Str.strStep_fromUtf8_accepted_iff as str_from_utf8_accepted_iff
 
 end HipVerif.Props.C06
